@@ -12,27 +12,44 @@ Import ListNotations.
 Open Scope N_scope.
 
 (* ---- order: connect <= join <= leave <= disconnect ---- *)
-(* Twisted, every history: the sequence of life-cycle callbacks (and GOODBYEs sent) is a word of the automaton
-   [mstep]: connect first and only once; join only while no session is established; leave ends an established
-   session or reports an abort while none is established; GOODBYE is sent only on an established session;
-   disconnect at most once and nothing after it. *)
-Theorem C06_order : forall cfg ops,
+(* One session object lives through a SEQUENCE of transport connections (an [OOpen] on an object that lost its
+   transport starts the next life; nothing but what onOpen / join() reset explicitly is fresh there).
+   Twisted, every history of lives: the sequence of life-cycle callbacks (and GOODBYEs sent) is a word of the
+   automaton [mstep]; in each life: connect first and only once; join only while no session is established; leave
+   ends an established session or reports an abort while none is established; GOODBYE is sent only on an established
+   session; disconnect at most once, and after it nothing but the connect of the next life.
+   Hypothesis [lives_ok]: the router hands out session id 0 only to an object that is not connected again afterwards
+   (histories with one connection satisfy it whatever the router does: [C06_order_single_life]). *)
+Theorem C06_order : forall cfg ops, lives_ok ops = true ->
   mrun MFresh (levs (trace Tx cfg ops)) = Some (mon (final Tx cfg ops)).
 Proof. exact tx_order. Qed.
 Print Assumptions C06_order.
 
-Theorem C06_order_connect_once : forall es m, mrun MFresh es = Some m ->
-  es = [] \/ exists t, es = LvConnect :: t /\ ~ In LvConnect t.
-Proof. exact automaton_connect_once. Qed.
-Print Assumptions C06_order_connect_once.
+Theorem C06_order_single_life : forall ops, existsb is_open ops = false -> lives_ok ops = true.
+Proof. exact lives_ok_single. Qed.
+Print Assumptions C06_order_single_life.
 
-Theorem C06_order_disconnect_last : forall m a b m',
-  mrun m (a ++ LvDisconnect :: b) = Some m' -> b = [] /\ ~ In LvDisconnect a.
-Proof. exact automaton_disconnect_last. Qed.
-Print Assumptions C06_order_disconnect_last.
+(* FALSE without the hypothesis: session id 0 is never forgotten; in its next life the object does not join and takes
+   the router's GOODBYE for a session it does not have there *)
+Theorem C06_order_refuted_session_id_zero_next_life :
+  exists cfg ops, mrun MFresh (levs (trace Tx cfg ops)) = None.
+Proof. exact tx_order_refuted_session_id_zero_next_life. Qed.
+Print Assumptions C06_order_refuted_session_id_zero_next_life.
+
+(* one connect per life: a connect is the very first event or follows a disconnect immediately *)
+Theorem C06_order_connect_starts_life : forall a b m m',
+  mrun m (a ++ LvConnect :: b) = Some m' -> a = [] \/ exists a', a = a' ++ [LvDisconnect].
+Proof. exact automaton_connect_starts_life. Qed.
+Print Assumptions C06_order_connect_starts_life.
+
+(* one disconnect per life, nothing after it but the next life *)
+Theorem C06_order_disconnect_ends_life : forall m a b m',
+  mrun m (a ++ LvDisconnect :: b) = Some m' -> b = [] \/ exists b', b = LvConnect :: b'.
+Proof. exact automaton_disconnect_ends_life. Qed.
+Print Assumptions C06_order_disconnect_ends_life.
 
 Theorem C06_order_join_leave_alternate : forall m m' a b c,
-  mrun m (a ++ LvJoin :: b ++ LvJoin :: c) = Some m' -> In LvLeave b.
+  mrun m (a ++ LvJoin :: b ++ LvJoin :: c) = Some m' -> In LvLeave b \/ In LvDisconnect b.
 Proof. exact automaton_join_needs_leave. Qed.
 Print Assumptions C06_order_join_leave_alternate.
 
@@ -72,7 +89,7 @@ Theorem C06_asyncio_settled_step : forall cfg s o, queue s = [] ->
 Proof. exact aio_macro_spec. Qed.
 Print Assumptions C06_asyncio_settled_step.
 
-Theorem C06_order_partial_asyncio_settled : forall cfg ops,
+Theorem C06_order_partial_asyncio_settled : forall cfg ops, lives_ok ops = true ->
   exists m, mrun MFresh (levs (trace Aio cfg (settle ops))) = Some m.
 Proof. exact aio_settled_order. Qed.
 Print Assumptions C06_order_partial_asyncio_settled.
@@ -171,12 +188,27 @@ Theorem C06_goodbye_reply_iff_not_initiated : forall fl cfg s v rs,
 Proof. exact goodbye_ends. Qed.
 Print Assumptions C06_goodbye_reply_iff_not_initiated.
 
-(* ... and the closing flag is set by a leave() that handed GOODBYE to the transport, by nothing else *)
-Theorem C06_goodbye_flag_is_initiated : forall cfg s o, opened s = true ->
+(* ... and the closing flag is set by a leave() that handed GOODBYE to the transport, by nothing else; it is cleared
+   by join() -- i.e. at the start of every life whose onConnect joins -- and by nothing else *)
+Theorem C06_goodbye_flag_is_initiated : forall cfg s o,
   goodbye_sent (fst (step Tx cfg s o)) =
-  goodbye_sent s || match o with ALeave _ => sid_truthy s && transport s && send_ok cfg s | _ => false end.
+  match o with
+  | OOpen => if transport s then goodbye_sent s
+             else match u_connect cfg with CnJoin => if sid_truthy s then goodbye_sent s else false | CnRaise => goodbye_sent s end
+  | ALeave _ => goodbye_sent s || (sid_truthy s && transport s && send_ok cfg s)
+  | _ => goodbye_sent s
+  end.
 Proof. exact tx_goodbye_flag. Qed.
 Print Assumptions C06_goodbye_flag_is_initiated.
+
+(* every life can be left: whatever happened in earlier lives (in particular: a GOODBYE was sent there), an object
+   without transport and session id that is connected again (onConnect joins), is welcomed and calls leave() sends
+   GOODBYE *)
+Theorem C06_leave_in_every_life : forall cfg s v r, transport s = false -> sid s = None ->
+  u_connect cfg = CnJoin -> u_welcome cfg = WlNone -> v <> 0 ->
+  levs (concat (snd (run Tx cfg s [OOpen; RWelcome v; ALeave r]))) = [LvConnect; LvJoin; LvGoodbye].
+Proof. exact tx_leave_in_every_life. Qed.
+Print Assumptions C06_leave_in_every_life.
 
 (* ---- nothing pending ---- *)
 (* Re-entrancy covered: user callbacks / errbacks attached to request futures ([AReact]) that issue call / publish /
@@ -250,6 +282,8 @@ Theorem C06_api_after_end : forall fl cfg s o,
 Proof. exact api_after_lost. Qed.
 Print Assumptions C06_api_after_end.
 
+(* unsubscribe() / unregister() on the objects of the lost connection: whatever the tables hold (several handlers on
+   the subscription, other registrations, pending requests), the call raises and changes nothing *)
 Theorem C06_api_after_end_objects : forall fl cfg s h,
   transport s = false ->
   (exists e, step fl cfg s (AUnsubscribe h) = (s, [ApiRaised e])) /\
@@ -258,7 +292,7 @@ Proof. exact api_after_lost_objects. Qed.
 Print Assumptions C06_api_after_end_objects.
 
 Theorem C06_api_after_close : forall fl cfg s uri a kw o,
-  transport s = true -> topen s = false -> t_lenient cfg = false ->
+  transport s = true -> topen s = false -> t_lenient cfg = false -> failnext s = None ->
   exists s' m, step fl cfg s (ACall uri a kw o) = (s', [SendFailed m; ApiRaised XTransportLost])
                /\ (forall r, In r (pend s') -> In r (pend s)) /\ done s' = done s.
 Proof. exact api_after_close. Qed.
